@@ -287,4 +287,4 @@ _targets_before_observers = targets
 
 def targets():      # noqa: F811
     from . import purity
-    return _targets_before_observers() + [purity.target_observers(["circuit/base", "circuit/series", "circuit/parallel", "circuit/circuit", "circuit/circuit_builder", "circuit/transmission_line_model"], "circuit observers keep no state"), purity.target_modules(["circuit/parser", "circuit/tokenizer", "circuit/circuit_builder", "circuit/base", "circuit/series", "circuit/parallel", "circuit/circuit"], "circuit modules keep no state between calls")]
+    return _targets_before_observers() + [purity.target_observers(["circuit/base", "circuit/series", "circuit/parallel", "circuit/circuit", "circuit/circuit_builder", "circuit/transmission_line_model"], "circuit observers keep no state"), purity.target_modules(["circuit/__init__", "circuit/parser", "circuit/tokenizer", "circuit/circuit_builder", "circuit/base", "circuit/series", "circuit/parallel", "circuit/circuit"], "circuit modules keep no state between calls")]
